@@ -270,4 +270,58 @@ theorem i32_of_fits {x : Nat} (h : fits31 x = true) : i32 x = (x : Int) := by
   simp only [i32, h2]
   rw [if_pos h]
 
+/-! ## the signal ids the loader has seen -/
+
+theorem Seen.owner_cons (sn : Seen) (id id' : Id) (o : Owner) :
+    Seen.owner ((id, o) :: sn) id' = if id = id' then some o else sn.owner id' := by
+  unfold Seen.owner
+  by_cases h : id = id'
+  · simp [h]
+  · have : (id == id') = false := by simpa using h
+    simp [List.find?_cons, this, h]
+
+/-- the check passes iff the id is new or was listed by the same owner; the entry is written -/
+theorem seeSig_ok_iff (sn sn' : Seen) (id : Id) (o : Owner) :
+    seeSig sn id o = .ok sn' ↔ (sn.owner id = none ∨ sn.owner id = some o) ∧ sn' = (id, o) :: sn := by
+  unfold seeSig
+  cases h : sn.owner id with
+  | none => simp [eq_comm]
+  | some o' =>
+    by_cases ho : o' = o
+    · simp [ho, eq_comm]
+    · simp [ho]
+
+/-- everything seen so far is what `own` says -/
+def Agrees (sn : Seen) (own : Id → Option Owner) : Prop :=
+  ∀ id o, sn.owner id = some o → own id = some o
+
+theorem Agrees.nil (own : Id → Option Owner) : Agrees [] own := by
+  intro id o h
+  simp [Seen.owner] at h
+
+theorem seeSig_of_agrees {sn : Seen} {own : Id → Option Owner} {id : Id} {o : Owner}
+    (ha : Agrees sn own) (ho : own id = some o) :
+    seeSig sn id o = .ok ((id, o) :: sn) ∧ Agrees ((id, o) :: sn) own := by
+  refine ⟨(seeSig_ok_iff sn _ id o).mpr ⟨?_, rfl⟩, ?_⟩
+  · cases h : sn.owner id with
+    | none => exact Or.inl rfl
+    | some o' =>
+      have := ha id o' h
+      rw [ho] at this
+      exact Or.inr (by rw [Option.some.inj this])
+  · intro id' o' h
+    rw [Seen.owner_cons] at h
+    split at h
+    · rename_i he
+      subst he
+      rw [← Option.some.inj h]
+      exact ho
+    · exact ha id' o' h
+
+/-- a list of (id, owner) with distinct ids, read as a function -/
+theorem owner_of_mem {l : Seen} (hn : (l.map (·.1)).Nodup) {p : Id × Owner} (hp : p ∈ l) :
+    Seen.owner l p.1 = some p.2 := by
+  unfold Seen.owner
+  rw [find?_key_of_mem (fun q : Id × Owner => q.1) hn hp]
+
 end Acme.Save
